@@ -141,6 +141,13 @@ Theorem codec_roundtrip_refuted_tuple_stringref :
 Proof. exact roundtrip_refuted_tuple_stringref. Qed.
 Print Assumptions codec_roundtrip_refuted_tuple_stringref.
 
+Theorem codec_roundtrip_refuted_tuple_stringref_replay :
+  wt rf_t rf_v2 /\
+  exists bs rest, enc rf_t rf_v2 0 [] = Some (bs, []) /\ lenN bs = 20 /\
+                  dec id_reinsert true false rf_t 0 bs = Some (VL [VB []; VB [0; 32; 0; 0]], rest) /\ lenN rest = 12.
+Proof. exact roundtrip_refuted_tuple_stringref_replay. Qed.
+Print Assumptions codec_roundtrip_refuted_tuple_stringref_replay.
+
 (* the clearing rule is needed *)
 Theorem codec_cache_sync_refuted_noclear :
   let ts := [CStr] in let vs := [VB [97; 98; 99]] in let stale0 := [2] in
